@@ -1,4 +1,5 @@
 import GaleneVerif.Engine.Down
+import GaleneVerif.Model.SendSeq
 /-
 Engine `writer`: the real rtpWriterPool / rtpWriterLoop / sendSequence serving several
 real rtpDownTracks from one publisher cache (C01, C02, C05).
@@ -109,6 +110,26 @@ def step (st : St) (op impl : List String) : St × Verdict :=
         ({ st with downs := setNth st.downs i (r.st, o') }, match ov with | some m => .oracle m | none => v)
       | none => (st, .badop "wnack index")
     | _, _ => (st, .badop "wnack")
+  | ["sendseq", kf, last, failAt, first, count, holes] =>
+    match nat? kf, nat? last, int? failAt, nat? first, nat? count with
+    | some kf, some last, some failAt, some first, some count =>
+      let hs : List Nat := if holes = "-" then [] else (holes.splitOn ",").filterMap nat?
+      let cached : Nat → Bool := fun s => decide ((s + 65536 - first % 65536) % 65536 < count) && !hs.contains s
+      let fa : Option Nat := if failAt < 0 then none else some failAt.toNat
+      let out := Galene.Model.SendSeq.replay kf last cached fa
+      let v := cmp (joinNats (out.length :: out)) impl
+      -- oracle, from the implementation's output alone: everything of kf..last that could be replayed was
+      let implSeq := (impl.drop 1).filterMap nat?
+      let d := Galene.Model.SendSeq.dist last kf
+      let allCached := (List.range (d + 1)).all fun i => cached ((kf + i) % 65536)
+      let orc : Option String :=
+        if d < 32768 && allCached && fa.isNone && !implSeq.contains (last % 65536) then
+          some s!"C20: the keyframe replay for a receiver or recorder attached in mid-stream stopped short of the newest cached packet {last % 65536} (kf {kf}, every packet of the range cached, no write failed): if the next live packet reaches the recorder before the replay does, the hole is never fetched and the frame holding that packet is missing from the file"
+        else if d < 32768 && allCached && fa.isNone && implSeq.length != d + 1 then
+          some s!"C20: the keyframe replay wrote {implSeq.length} packets for the range {kf}..{last} of {d + 1} cached packets"
+        else none
+      (st, match orc with | some m => .oracle m | none => v)
+    | _, _, _, _, _ => (st, .badop "sendseq")
   | ["late", _] => (st, .ok)
   | ["latecheck", _] =>
     -- oracle only: each record is ts:payloadhex (or changed-during-write:ts)
